@@ -342,9 +342,9 @@ Definition cv_truth := [cv_R1; cv_R2].
 Definition cv_pd (t : nat) (q : pd_req) : pd_ans :=
   match q with ReqGet k => PdOne (Some (if lex_ltb k [98] then cv_R1 else cv_R2)) | _ => PdOne None end.
 Definition cv_stale := mkRegion 1 [] [] 1 1 [(1, 1); (2, 2)] 0 false 0 false false false [0; 0] None.
-Definition cv_cache := mkCache [cv_stale] [((1, 1, 1), [])] [(1, (1, 1))] [].
+Definition cv_cache := mkCache [cv_stale] [((1, 1, 1), [])] [(1, (1, 1))] [] [].
 (* the same cache after a send failure on store 1 (its fail-epoch is 1, the entry recorded 0) *)
-Definition cv_cache_failed := mkCache [cv_stale] [((1, 1, 1), [])] [(1, (1, 1))] [(1, 1)].
+Definition cv_cache_failed := mkCache [cv_stale] [((1, 1, 1), [])] [(1, (1, 1))] [(1, 1)] [].
 Lemma cv_truth_wf : truth_wf cv_truth.
 Proof.
   constructor.
@@ -372,9 +372,10 @@ Proof.
   - intros x T [<-|[]] [<-|[<-|[]]] H; [cbn; lia|discriminate H].
   - intros x [<-|[]]. repeat split; [left; reflexivity|discriminate|cbn; lia|intros H; exfalso; apply H; reflexivity].
   - intros x [<-|[]]. reflexivity.
+  - intros T p _ _. reflexivity.
 Qed.
 Lemma cv_cache_failed_inv : cinv cv_truth cv_cache_failed.
-Proof. destruct cv_cache_inv as [A B C D E F G H I]. constructor; assumption. Qed.
+Proof. destruct cv_cache_inv as [A B C D E F G H I J]. constructor; assumption. Qed.
 Example C09_converges_nonvacuous :
   truth_wf cv_truth /\ cinv cv_truth cv_cache /\ cinv cv_truth empty_cache /\
   rounds cv_truth (fun _ => cv_truth) cv_pd 3 3 3 cv_cache [99] = false /\
@@ -393,4 +394,17 @@ Proof.
   - intros x T [].
   - intros x [].
   - intros x [].
+  - intros T p _ _. reflexivity.
 Qed.
+
+(* a decommissioned store: the periodic store check (Store.reResolve) bumps the fail-epoch of a store PD reports as removed
+   and takes its address away; a warm entry whose work peer sits on it is then invalidated by the next GetTiKVRPCContext
+   (no address) — in the convergence theorem this is the "unusable work store" round, the bound stays 4. [cinv] requires
+   that no CURRENT peer is on a store the cache knows to be a tombstone. *)
+Definition cv_stale7 := mkRegion 1 [] [] 1 1 [(1, 7); (2, 2)] 0 false 0 false false false [0; 0] None.
+Example C09_converges_after_decommission :
+  let c := re_resolve (mkCache [cv_stale7] [((1, 1, 1), [])] [(1, (1, 1))] [] []) 7 true in
+  c_sepochs c = [(7, 1)] /\ c_tomb c = [7] /\
+  rounds cv_truth (fun _ => cv_truth) cv_pd 3 3 1 c [99] = false /\ rounds cv_truth (fun _ => cv_truth) cv_pd 3 3 2 c [99] = true.
+Proof. vm_compute. repeat split. Qed.
+
